@@ -1,4 +1,5 @@
 import CasbinVerif.Model.Config
+import CasbinVerif.Proofs.Config
 /-
   C08 — Model text is read faithfully regardless of layout.
 
@@ -30,23 +31,42 @@ def notInsideContinuation (pre : List (List Char)) : Bool :=
 
 def dataOf (o : Option St) : Option (List (Key × List Char)) := o.map (·.data)
 
+/-! bridges to the vocabulary of `Proofs/Config.lean` -/
+theorem blankOrComment_eq (l : List Char) : blankOrComment l = isBC (trim l) := by
+  unfold blankOrComment isBC; cases trim l <;> rfl
+
+theorem isContLine_eq (l : List Char) : isContLine l = contline (trim l) := by
+  unfold isContLine contline; rw [blankOrComment_eq]
+
+theorem lastNotCont_of (pre : List (List Char)) (h : notInsideContinuation pre = true) :
+    lastNotCont pre := by
+  intro l hl
+  unfold notInsideContinuation at h
+  rw [hl] at h
+  rw [← isContLine_eq]
+  simpa using h
+
 /-- blank and comment lines between entries do not change what is read -/
 theorem blank_comment_lines (pre post : List (List Char)) (l : List Char)
     (hl : blankOrComment l = true) (hpre : notInsideContinuation pre = true) :
     dataOf (parseLines {} (pre ++ l :: post)) = dataOf (parseLines {} (pre ++ post)) := by
-  sorry
+  rw [blank_line_drop (by rwa [← blankOrComment_eq]) (lastNotCont_of pre hpre)]
 
 /-- whitespace around any line does not change what is read -/
 theorem surrounding_space (ls : List (List Char)) (padL padR : List Char → List Char)
     (hL : ∀ l, (padL l).all isSpace = true) (hR : ∀ l, (padR l).all isSpace = true) :
     parseLines {} (ls.map (fun l => padL l ++ l ++ padR l)) = parseLines {} ls := by
-  sorry
+  apply parseLines_congr_trim
+  rw [List.map_map]
+  apply List.map_congr_left
+  intro l _
+  exact trim_pad _ _ _ (hL l) (hR l)
 
 /-- "\n" → "\r\n" -/
 def toCRLF (text : List Char) : List Char := text.flatMap (fun c => if c == '\n' then ['\r', '\n'] else [c])
 
-theorem crlf (text : List Char) : parseConfig (toCRLF text) = parseConfig text := by
-  sorry
+theorem crlf (text : List Char) : parseConfig (toCRLF text) = parseConfig text :=
+  parseConfig_crlf text
 
 /-- conditions under which a definition line `a ++ " " ++ b` may be split after `a` -/
 def splittable (a b : List Char) : Bool :=
@@ -61,11 +81,38 @@ def splittable (a b : List Char) : Bool :=
 /-- backslash continuation at a blank: the two lines `a \` and `b` are read as the one line `a b` -/
 theorem continuation_split (st : St) (a b : List Char) (h : splittable a b = true) :
     (stepLine st (a ++ [' ', '\\'])).bind (fun s => stepLine s b) = stepLine st (a ++ ' ' :: b) := by
-  sorry
+  simp only [splittable, Bool.and_eq_true] at h
+  obtain ⟨⟨⟨⟨⟨⟨⟨-, -⟩, h1⟩, h2⟩, h3⟩, h4⟩, h5⟩, h6⟩ := h
+  cases hah : a.head? with
+  | none => simp [hah] at h1
+  | some ca =>
+  cases hal : a.getLast? with
+  | none => simp [hal] at h2
+  | some za =>
+  cases hbh : b.head? with
+  | none => simp [hbh] at h3
+  | some cb =>
+  cases hbl : b.getLast? with
+  | none => simp [hbl] at h4
+  | some zb =>
+  simp only [hah, hal, hbh, hbl, Option.map_some, Option.getD_some, Bool.and_eq_true,
+    bne_iff_ne, ne_eq, Bool.not_eq_eq_eq_not, Bool.not_true] at h1 h2 h3 h4 h5
+  refine cont_split st a b ca za cb zb hah hal hbh hbl h1.1.1 h1.1.2 h1.2 h2 h3 h4.1 h4.2 ?_ h6
+  intro hc
+  rw [hc.1, hc.2] at h5
+  simp at h5
 
 theorem continuation_split_text (pre post : List (List Char)) (a b : List Char) (h : splittable a b = true) :
     parseLines {} (pre ++ (a ++ [' ', '\\']) :: b :: post) = parseLines {} (pre ++ (a ++ ' ' :: b) :: post) := by
-  sorry
+  rw [parseLines_append, parseLines_append]
+  cases runLines {} pre with
+  | none => rfl
+  | some s =>
+    simp only [Option.bind_some]
+    rw [parseLines_cons, parseLines_cons, ← continuation_split s a b h]
+    cases stepLine s (a ++ [' ', '\\']) with
+    | none => rfl
+    | some s1 => simp only [Option.bind_some]; rw [parseLines_cons]
 
 /-- a section: its header and the lines up to the next header -/
 structure Block where
@@ -81,23 +128,62 @@ def Block.lines (b : Block) : List (List Char) := ('[' :: b.name ++ [']']) :: b.
 def Block.wf (b : Block) : Bool := b.body.all (fun l => !isHeader l) && b.name.all (fun c => !isSpace c)
 def Block.section (b : Block) : List Char := if b.name.isEmpty then defaultSection else b.name
 
+/-! bridges to the block vocabulary of `Proofs/Config.lean` -/
+theorem isHeader_eq (l : List Char) : isHeader l = isHdr (trim l) := by
+  unfold isHeader isHdr; cases trim l <;> rfl
+
+def Block.toBlk (b : Block) : Blk := (b.name, b.body)
+
+theorem flatMap_lines_eq (bs : List Block) :
+    bs.flatMap Block.lines = (bs.map Block.toBlk).flatMap blkLines := by
+  rw [List.flatMap_map]; rfl
+
+theorem Block.wf_toBlk {b : Block} (h : b.wf = true) : b.toBlk.wf := by
+  unfold Block.wf at h
+  simp only [Bool.and_eq_true, List.all_eq_true] at h
+  refine ⟨fun l hl => ?_, ?_⟩
+  · have := h.1 l hl
+    rw [isHeader_eq] at this
+    simpa using this
+  · rw [List.all_eq_true]; exact h.2
+
+theorem wf_map_toBlk {bs : List Block} (hwf : ∀ b ∈ bs, b.wf = true) :
+    ∀ b ∈ bs.map Block.toBlk, b.wf := by
+  intro b hb
+  obtain ⟨b', hb', rfl⟩ := List.mem_map.mp hb
+  exact Block.wf_toBlk (hwf b' hb')
+
 /-- the order of sections does not change any value that is read -/
 theorem section_order (bs₁ bs₂ : List Block) (hperm : bs₁.Perm bs₂)
     (hwf : ∀ b ∈ bs₁, b.wf = true) (hd : (bs₁.map Block.section).Nodup) (k : Key) :
     (dataOf (parseLines {} (bs₁.flatMap Block.lines))).map (fun d => lookup d k) =
     (dataOf (parseLines {} (bs₂.flatMap Block.lines))).map (fun d => lookup d k) := by
-  sorry
+  have hwf₂ : ∀ b ∈ bs₂, b.wf = true := fun b hb => hwf b (hperm.mem_iff.mpr hb)
+  have hd' : ((bs₁.map Block.toBlk).map (fun b => secOf b.1)).Nodup := by
+    rw [List.map_map]; exact hd
+  unfold dataOf
+  rw [flatMap_lines_eq, flatMap_lines_eq, parse_blocks_init _ (wf_map_toBlk hwf),
+    parse_blocks_init _ (wf_map_toBlk hwf₂)]
+  exact allEntries_perm_lookup _ _ (hperm.map _) (wf_map_toBlk hwf) hd' k
 
 theorem section_order_length (bs₁ bs₂ : List Block) (hperm : bs₁.Perm bs₂)
     (hwf : ∀ b ∈ bs₁, b.wf = true) :
     (dataOf (parseLines {} (bs₁.flatMap Block.lines))).map List.length =
     (dataOf (parseLines {} (bs₂.flatMap Block.lines))).map List.length := by
-  sorry
+  have hwf₂ : ∀ b ∈ bs₂, b.wf = true := fun b hb => hwf b (hperm.mem_iff.mpr hb)
+  unfold dataOf
+  rw [flatMap_lines_eq, flatMap_lines_eq, parse_blocks_init _ (wf_map_toBlk hwf),
+    parse_blocks_init _ (wf_map_toBlk hwf₂)]
+  exact allEntries_perm_length _ _ (hperm.map _)
 
 /-- the section in force after a list of lines -/
 def sectAfter (ls : List (List Char)) : List Char :=
   let s := ls.foldl (fun s l => if isHeader l then ((trim l).drop 1).dropLast else s) []
   if s.isEmpty then defaultSection else s
+
+theorem sectAfter_eq (ls : List (List Char)) : sectAfter ls = secOf (sectFold [] ls) := by
+  unfold sectAfter secOf sectFold
+  simp only [isHeader_eq]
 
 /-- nothing is silently dropped: a one-line definition `k = v` is stored in full, whatever its length -/
 theorem nothing_dropped (pre post : List (List Char)) (k v : List Char) (st : St)
@@ -106,16 +192,22 @@ theorem nothing_dropped (pre post : List (List Char)) (k v : List Char) (st : St
     (hpre : notInsideContinuation pre = true)
     (hparse : parseLines {} (pre ++ (k ++ '=' :: v) :: post) = some st) :
     ((sectAfter pre, trim k), trim v) ∈ st.data := by
-  sorry
+  simp only [Bool.and_eq_true, Bool.not_eq_true', blankOrComment_eq, isHeader_eq, isContLine_eq,
+    decide_eq_false_iff_not, Bool.not_eq_true] at hline
+  rw [sectAfter_eq]
+  exact def_stored_text hk hv hline.1.1 hline.1.2 hline.2 (lastNotCont_of pre hpre) hparse
 
 /-- the definitions are a function of the configuration that was read -/
 theorem loadModel_of_same_config (t₁ t₂ : List Char) (h : parseConfig t₁ = parseConfig t₂) :
     loadModel t₁ = loadModel t₂ := by
-  sorry
+  unfold loadModel
+  rw [h]
 
 /-- parsing any text yields a configuration or an error (the model function is total) -/
 theorem parse_total (text : List Char) : parseConfig text = none ∨ ∃ d, parseConfig text = some d := by
-  sorry
+  cases parseConfig text with
+  | none => exact Or.inl rfl
+  | some d => exact Or.inr ⟨d, rfl⟩
 
 /-! ### non-vacuity -/
 example : splittable "m = r.sub == p.sub &&".toList "r.obj == p.obj".toList = true := by decide
